@@ -3,7 +3,7 @@
    (otto's bridge as transcribed) and Spec (the required round trip). *)
 From Coq Require Import ZArith Bool List.
 From Otto Require Import Common.Corr Common.Double C15.Spec.
-From Otto Require Export C15.Model.
+From Otto Require Export C15.Model C15.ModelExport.
 Import ListNotations.
 Open Scope Z_scope.
 
@@ -41,6 +41,110 @@ Definition gscalar_eqb (a b : gscalar) : bool :=
    the reflect.Value branch of toValue is taken by 1 and 2 *)
 Definition is_refl (path : Z) : bool := (path =? 1) || (path =? 2).
 
+(* what can be told about a primitive from either side *)
+Inductive cv := CVUndef | CVNull | CVBool (b : bool) | CVNum (bits : Z) | CVStr (s : list Z) | CVOther.
+Inductive hop :=
+| HSet (store via name : Z) (g : gscalar)
+| HDel (store name : Z)
+| HGet (store via name : Z).
+
+Definition cv_eqb (a b : cv) : bool :=
+  match a, b with
+  | CVUndef, CVUndef | CVNull, CVNull => true
+  | CVBool x, CVBool y => Bool.eqb x y
+  | CVNum x, CVNum y => x =? y
+  | CVStr x, CVStr y => zlist_eqb x y
+  | _, _ => false
+  end.
+
+Definition cv_of (g : gscalar) : cv :=
+  match g with
+  | GNil => CVUndef
+  | GBool b => CVBool b
+  | GInt _ n => CVNum (float_of_int n)
+  | GF32 b => CVNum (widen32 b)
+  | GF64 b => CVNum b
+  | GStr s => CVStr s
+  end.
+
+(* the bindings as an association list keyed by (store, name); a read sees the last write *)
+Definition hstate := list (Z * Z * cv).
+Fixpoint hlookup (st : hstate) (store name : Z) : cv :=
+  match st with
+  | [] => CVUndef
+  | (s, n, v) :: r => if (s =? store) && (n =? name) then v else hlookup r store name
+  end.
+Definition hremove (st : hstate) (store name : Z) : hstate :=
+  filter (fun e => negb ((fst (fst e) =? store) && (snd (fst e) =? name))) st.
+Fixpoint hrun (st : hstate) (ops : list hop) : list cv :=
+  match ops with
+  | [] => []
+  | HSet store _ name g :: r => hrun ((store, name, cv_of g) :: st) r
+  | HDel store name :: r => hrun (hremove st store name) r
+  | HGet store _ name :: r => hlookup st store name :: hrun st r
+  end.
+
+(* Go containers handed to the runtime: what a script must see of them *)
+Inductive gt :=
+| GTScalar (g : gscalar)
+| GTSlice (isnil : bool) (l : list gt)                    (* typed slices and []interface{} *)
+| GTArray (l : list gt)
+| GTMap (isnil : bool) (l : list (list Z * gt))           (* string keys, ascending *)
+| GTStruct (l : list (list Z * bool * gt))                (* field name, exported?, value; also behind a pointer *)
+| GTNilPtr.
+
+Definition jv_of_cv (c : cv) : jv :=
+  match c with
+  | CVUndef | CVOther => JUndef
+  | CVNull => JNull
+  | CVBool b => JBool b
+  | CVNum b => JNumF b
+  | CVStr s => JStr s
+  end.
+
+(* the script's structural view: slices and arrays are arrays of the counterparts (a nil slice is
+   empty), maps and structs are objects (a nil map is empty, unexported fields are invisible),
+   a nil pointer is undefined *)
+Fixpoint view_of (t : gt) : jv :=
+  match t with
+  | GTScalar g => jv_of_cv (cv_of g)
+  | GTSlice _ l => JArr (map (fun x => Some (view_of x)) l)
+  | GTArray l => JArr (map (fun x => Some (view_of x)) l)
+  | GTMap _ l => JObj (map (fun kv => (fst kv, view_of (snd kv))) l)
+  | GTStruct l =>
+      JObj ((fix go (l : list (list Z * bool * gt)) : list (list Z * jv) :=
+               match l with
+               | [] => []
+               | (k, exported, x) :: r => if exported then (k, view_of x) :: go r else go r
+               end) l)
+  | GTNilPtr => JUndef
+  end.
+
+Fixpoint jv_eqb (a b : jv) : bool :=
+  match a, b with
+  | JUndef, JUndef | JNull, JNull => true
+  | JBool x, JBool y => Bool.eqb x y
+  | JNumI k n, JNumI k' n' => ikind_eqb k k' && (n =? n')
+  | JNumF x, JNumF y => x =? y
+  | JStr x, JStr y => zlist_eqb x y
+  | JArr l, JArr l' =>
+      (fix go (l l' : list (option jv)) : bool :=
+         match l, l' with
+         | [], [] => true
+         | None :: r, None :: r' => go r r'
+         | Some x :: r, Some y :: r' => jv_eqb x y && go r r'
+         | _, _ => false
+         end) l l'
+  | JObj l, JObj l' =>
+      (fix go (l l' : list (list Z * jv)) : bool :=
+         match l, l' with
+         | [], [] => true
+         | (k, x) :: r, (k', y) :: r' => zlist_eqb k k' && jv_eqb x y && go r r'
+         | _, _ => false
+         end) l l'
+  | _, _ => false
+  end.
+
 Inductive case :=
 | CExport (path : Z) (g : gscalar) (obs : ob gscalar)
 | CToFloat (path : Z) (g : gscalar) (onum : Z) (obs : ob Z)
@@ -53,7 +157,29 @@ Inductive case :=
 | CPred (path : Z) (g : gscalar) (onum : Z) (obs : list bool)
 (* script view: typeof x, x === LIT, 1/x === 1/LIT (sign of zero), Boolean(x), String(x) *)
 | CScript (path : Z) (g : gscalar) (ostr : list Z)
-          (ty : ob Z) (eq sign bo : ob bool) (sx : option (ob (list Z))).
+          (ty : ob Z) (eq sign bo : ob bool) (sx : option (ob (list Z)))
+(* Export of script data: via 0 = evaluated from source text, 1 = JSON.parse of its JSON text,
+   2 = Otto.Get after the script stored it in a global, 3 = handed to a Go function as call argument *)
+| CExportTree (via : Z) (v : jv) (obs : ob gv)
+(* Export of an array after a history of script mutations *)
+| CExportHist (init : list (option jv)) (ops : list aop) (obs : ob gv)
+(* a JavaScript value read through the Go API against the in-language conversions.
+   ty: typeof (1 = null, 5 object, 6 function); jnum jstr jbool jisnan: in-language Number(v) String(v)
+   Boolean(v) isNaN(v); preds: IsDefined IsUndefined IsNull IsPrimitive IsBoolean IsNumber IsString
+   IsObject IsFunction Class()==""; gnan gnum gint gstr gbool: IsNaN ToFloat ToInteger ToString ToBoolean *)
+| CJsVal (ty : Z) (jnum : ob Z) (jstr : ob (list Z)) (jbool jisnan : ob bool)
+         (preds : list bool) (gnan : ob bool) (gnum gint : ob Z) (gstr : ob (list Z)) (gbool : ob bool)
+(* an API call (0 Value.Call, 1 Object.Call, 2 Otto.Call with this, 3 Otto.Call without this) against the
+   in-language call; the callee reports [this tag; [argc]; [typeof a; String(a)...] ...] *)
+| CCall (api : Z) (args : list gscalar) (obs_api obs_lang : ob (list (list Z)))
+(* the callee throws / is not callable: error classes of the API call and of the in-language call *)
+| CCallErr (api : Z) (cls_api cls_lang : Z)
+(* histories of writes and reads of bindings: store 0 = global names (Otto.Set/Get), 1 = properties of a
+   script object (Object.Set/Get); via 0 = Go API, 1 = script *)
+| CHistory (ops : list hop) (obs : list cv)
+(* a Go container set into the runtime: the script's view of it (walked in-language), whether Export gives
+   a reflect.DeepEqual value back, whether MarshalJSON equals encoding/json of the original *)
+| CContainer (t : gt) (view : ob jv) (same json : ob bool).
 
 (* text of a double: exact for integers below 2^53 (independent of the oracle),
    the in-language text otherwise *)
@@ -136,6 +262,80 @@ Definition verdict_scalar (c : case) : Z * Z :=
             (OVal (typeof v), (m_eq, m_sign, OVal (to_boolean v)), m_sx)
             (OVal (spec_typeof g), (s_eq, OVal true, OVal (spec_to_boolean g)), s_sx)
             (match g with GF32 _ => 1 | _ => 3 end)
+  | _ => declined
   end.
 
-Definition verdict (c : case) : Z * Z := verdict_scalar c.
+Fixpoint gv_eqb (a b : gv) : bool :=
+  match a, b with
+  | XNil, XNil => true
+  | XBool x, XBool y => Bool.eqb x y
+  | XInt k n, XInt k' n' => ikind_eqb k k' && (n =? n')
+  | XF64 x, XF64 y => x =? y
+  | XStr x, XStr y => zlist_eqb x y
+  | XSlice e l, XSlice e' l' =>
+      gty_eqb e e' &&
+      (fix go (l l' : list gv) : bool :=
+         match l, l' with
+         | [], [] => true
+         | x :: r, y :: r' => gv_eqb x y && go r r'
+         | _, _ => false
+         end) l l'
+  | XMap l, XMap l' =>
+      (fix go (l l' : list (list Z * gv)) : bool :=
+         match l, l' with
+         | [], [] => true
+         | (k, x) :: r, (k', y) :: r' => zlist_eqb k k' && gv_eqb x y && go r r'
+         | _, _ => false
+         end) l l'
+  | _, _ => false
+  end.
+
+(* finding classes 5: Export panics (reflect.Set) on nested arrays whose kind triples agree
+   while their types differ; 6: Export skips holes, so later elements change index *)
+Definition verdict_tree (v : jv) (obs : ob gv) : Z * Z :=
+  let m := export_m v in
+  judge (ob_eqb gv_eqb) obs (of_res m) (OVal (export_s v))
+        (match m with Panic => 5 | Ok _ => 6 end).
+
+Definition zll_eqb := list_eqb zlist_eqb.
+
+(* class 7: Value.IsNaN has no catchPanic: a script exception thrown by the conversion escapes as a Go panic *)
+Definition verdict_jsval ty (jnum : ob Z) (jstr : ob (list Z)) (jbool jisnan : ob bool)
+           (preds : list bool) (gnan : ob bool) (gnum gint : ob Z) (gstr : ob (list Z)) (gbool : ob bool) : Z * Z :=
+  let exp_preds := [negb (ty =? 0); ty =? 0; ty =? 1; ty <? 5; ty =? 2; ty =? 3; ty =? 4; 5 <=? ty; ty =? 6; ty <? 5] in
+  let m_nan := match jisnan with OVal b => OVal b | _ => OPanic end in
+  let s_nan := match jisnan with OVal b => OVal b | _ => OVal true end in
+  let e_int := match jnum with OVal b => OVal (int64_of_bits b) | OErr c => OErr c | OPanic => OPanic end in
+  let eqb := fun a b : list bool * ob bool * (ob Z * ob Z) * (ob (list Z) * ob bool) =>
+               let '(p1, n1, (f1, i1), (s1, b1)) := a in
+               let '(p2, n2, (f2, i2), (s2, b2)) := b in
+               bool_list_eqb p1 p2 && ob_eqb Bool.eqb n1 n2 && ob_eqb Z.eqb f1 f2 && ob_eqb Z.eqb i1 i2 &&
+               ob_eqb zlist_eqb s1 s2 && ob_eqb Bool.eqb b1 b2 in
+  judge eqb (preds, gnan, (gnum, gint), (gstr, gbool))
+        (exp_preds, m_nan, (jnum, e_int), (jstr, jbool))
+        (exp_preds, s_nan, (jnum, e_int), (jstr, jbool)) 7.
+
+Definition verdict_call (args : list gscalar) (obs_api obs_lang : ob (list (list Z))) : Z * Z :=
+  let this_tag := match obs_lang with OVal (t :: _) => t | _ => [] end in
+  let exp := OVal (this_tag :: [Z.of_nat (length args)] ::
+                   map (fun g => let v := toValue false g in typeof v :: to_string (float_text []) v) args) in
+  judge (fun a b => ob_eqb zll_eqb (fst a) (fst b) && ob_eqb zll_eqb (snd a) (snd b))
+        (obs_api, obs_lang) (exp, exp) (exp, exp) 0.
+
+Definition verdict (c : case) : Z * Z :=
+  match c with
+  | CJsVal ty jnum jstr jbool jisnan preds gnan gnum gint gstr gbool =>
+      verdict_jsval ty jnum jstr jbool jisnan preds gnan gnum gint gstr gbool
+  | CCall _ args obs_api obs_lang => verdict_call args obs_api obs_lang
+  | CCallErr _ a b => judge Z.eqb (if a =? 0 then -1 else a) b b 0
+  | CHistory ops obs => judge (list_eqb cv_eqb) obs (hrun [] ops) (hrun [] ops) 0
+  | CContainer t view same json =>
+      let e := (OVal (view_of t), (OVal true, OVal true)) in
+      judge (fun a b : ob jv * (ob bool * ob bool) =>
+               ob_eqb jv_eqb (fst a) (fst b) && ob_eqb Bool.eqb (fst (snd a)) (fst (snd b)) &&
+               ob_eqb Bool.eqb (snd (snd a)) (snd (snd b)))
+            (view, (same, json)) e e 0
+  | CExportTree _ v obs => verdict_tree v obs
+  | CExportHist init ops obs => verdict_tree (JArr (apply_ops init ops)) obs
+  | _ => verdict_scalar c
+  end.
